@@ -106,7 +106,7 @@ type hobs struct {
 // replayHist performs the history on a real value and returns the observations.
 func replayHist(uni tyutil.Universe, h *hcase) (obs []hobs, harnessErr string) {
 	b := tyutil.NewBuilder(uni, false)
-	var v typed           // the value under observation
+	var v typed            // the value under observation
 	var twin reflect.Value // literal route: the constructed value the fields are copied from
 	nobs := 0
 	for i, s := range h.Steps {
